@@ -30,7 +30,7 @@ On(x) == IF x THEN "on" ELSE "off"
 
 DoHandshake ==
   /\ pc = 0
-  /\ LET cl == StrictClient(prog)
+  /\ LET cl == IF StrictRefused(prog) THEN "fail" ELSE StrictClient(prog)
          ev == [ok |-> cl # "fail", reqExt |-> StrictReqExt(prog), respExt |-> StrictRespExt(prog)]
      IN /\ ok' = (ok /\ HandshakeAllowed(prog, ev))
         /\ ns' = AfterHandshake(ns, ev)
@@ -89,10 +89,10 @@ Emit == pc = 0 => PrintT(<< "PROG", ToJson(prog) >>)
 InvRefinesEnvelope == ok
 
 (* C15 CompressionAgreement: both endpoints compress or neither does *)
-InvAgreement == (pc >= 1 /\ ~m.failed) => m.c = m.s
+InvAgreement == (pc >= 1 /\ ~m.failed /\ ~OutOfDomain(prog)) => m.c = m.s
 
 (* C15 UsedOnlyIfAnnouncedWithBothParams *)
-InvOnlyIfBoth == (pc >= 1 /\ ~m.failed /\ (m.c = "on" \/ m.s = "on")) => PmdBoth(Extensions(StrictRespExt(prog)))
+InvOnlyIfBoth == (pc >= 1 /\ ~m.failed /\ ~OutOfDomain(prog) /\ (m.c = "on" \/ m.s = "on")) => PmdBoth(Extensions(StrictRespExt(prog)))
 
 (* a real pair enables compression exactly when both sides enabled it *)
 (* C15: a toggle inside an open message never changes how THAT message is  *)
@@ -100,5 +100,5 @@ InvOnlyIfBoth == (pc >= 1 /\ ~m.failed /\ (m.c = "on" \/ m.s = "on")) => PmdBoth
 (* RSV1 bit and its payload encoding cannot disagree).                     *)
 InvLatched == \A sd \in {"c", "s"} : m.ow[sd] = "on" => m[sd] = "on"
 
-InvPair == (pc >= 1 /\ prog.mode = "pair") => (~m.failed /\ (m.c = "on") = (prog.dEn /\ prog.uEn))
+InvPair == (pc >= 1 /\ prog.mode = "pair" /\ ~prog.rhx.present) => (~m.failed /\ (m.c = "on") = (prog.dEn /\ prog.uEn))
 =============================================================================
